@@ -147,3 +147,32 @@ def sub(a, b):
 
 def scalar_sum(a):
     return rs._sum(a)
+
+
+def cond_checks(t, acc=None):
+    """conditions of all Cond nodes of a reference trace (for case splitting / same-branch assumptions)"""
+    acc = [] if acc is None else acc
+    if t.kind == "tr":
+        if isinstance(t.choices, dict):
+            for v in t.choices.values():
+                cond_checks(v, acc)
+    elif t.kind == "scan":
+        cond_checks(t.traces, acc)
+    elif t.kind == "cond":
+        acc.append(t.check)
+        cond_checks(t.trs[0], acc)
+        cond_checks(t.trs[1], acc)
+    return acc
+
+
+def check_cases(*refs, limit=3):
+    """scalar Cond conditions of the given reference traces as z3 Bools (at most `limit`), for case splitting"""
+    out = []
+    for r in refs:
+        for c in cond_checks(r):
+            c = sj.obj(c)
+            if c.ndim == 0:
+                t = sj.unlog(c.item())
+                if not any(t.eq(o) for o in out):
+                    out.append(t)
+    return out[:limit]
